@@ -10,6 +10,7 @@
      Part C  histories (events, run), the monitor, the invariant Inv, Inv init, one-step preservation,
              the lift by induction.
      Part D  the named theorems (statements of Properties/C15.v) as corollaries. *)
+From Coq Require Import Arith.
 From PB Require Import Common Tables FdlTables Telegram Phy TokenRing Params Fdl FdlProofs FdlStepProofs.
 
 (* ------------------------------------------------------------------------------------------ *)
@@ -115,6 +116,93 @@ Definition cpost (n : nat) (m : cst) (x : hitem) : cst :=
             (if in_visit k' then (if in_visit (c_kind m) then c_decl m else 0%nat) else 0%nat)
   | HReset => cst_init
   end.
+
+
+(* ------------------------------------------------------------------------------------------ *)
+(* Round-robin arithmetic                                                                      *)
+
+Lemma mod_lt2 (n x : nat) : (n <= x)%nat -> (x < 2 * n)%nat -> Nat.modulo x n = (x - n)%nat.
+Proof. intros H1 H2. symmetry. apply Nat.mod_unique with 1%nat; lia. Qed.
+
+(* Between two polls of a visit: no application has declined yet (first_app = None), or the
+   applications first, first+1, ..., first+d-1 (mod n) have declined, 0 < d < n, and the next one is
+   first+d (mod n). *)
+Definition visit_inv (n : nat) (fa : option nat) (next d : nat) : Prop :=
+  match fa with
+  | None => d = 0%nat
+  | Some first => (first < n)%nat /\ (0 < d < n)%nat /\ next = Nat.modulo (first + d) n
+  end.
+
+(* one more decline: schedule_next_application reports "cycle completed" exactly when all n have
+   declined *)
+Lemma decline_step n fa next d : (next < n)%nat -> visit_inv n fa next d ->
+  let first := match fa with Some x => x | None => next end in
+  let next' := Nat.modulo (next + 1) n in
+  if Nat.eqb next' first then S d = n else visit_inv n (Some first) next' (S d).
+Proof.
+  intros Hn Hv. cbn zeta.
+  assert (Hnext' : Nat.modulo (next + 1) n = if Nat.eqb (S next) n then 0%nat else S next).
+  { destruct (Nat.eqb_spec (S next) n) as [E|E].
+    - replace (next + 1)%nat with n by lia. apply Nat.mod_same. lia.
+    - replace (next + 1)%nat with (S next) by lia. apply Nat.mod_small. lia. }
+  destruct fa as [first|]; cbn [visit_inv] in *.
+  - destruct Hv as [Hf [Hd Hnx]].
+    assert (Hcase : ((first + d < n)%nat /\ next = (first + d)%nat) \/ ((n <= first + d)%nat /\ next = (first + d - n)%nat)).
+    { destruct (lt_dec (first + d) n) as [L|L]; [left|right]; (split; [lia|]).
+      - rewrite Hnx. apply Nat.mod_small. exact L.
+      - rewrite Hnx. apply mod_lt2; lia. }
+    assert (Htarget : Nat.modulo (first + S d) n = if Nat.eqb (S next) n then 0%nat else S next).
+    { destruct (Nat.eqb_spec (S next) n) as [E|E].
+      - destruct Hcase as [[L1 L2]|[L1 L2]].
+        + replace (first + S d)%nat with n by lia. apply Nat.mod_same. lia.
+        + lia.
+      - destruct Hcase as [[L1 L2]|[L1 L2]].
+        + rewrite Nat.mod_small by lia. lia.
+        + rewrite mod_lt2 by lia. lia. }
+    rewrite Hnext'. destruct (Nat.eqb_spec (if Nat.eqb (S next) n then 0%nat else S next) first) as [E|E].
+    + destruct (Nat.eqb_spec (S next) n) as [E2|E2]; destruct Hcase as [[L1 L2]|[L1 L2]]; lia.
+    + split; [exact Hf|]. split; [|symmetry; exact Htarget].
+      destruct (Nat.eqb_spec (S next) n) as [E2|E2]; destruct Hcase as [[L1 L2]|[L1 L2]]; lia.
+  - subst d. rewrite Hnext'. destruct (Nat.eqb_spec (S next) n) as [E2|E2].
+    + destruct (Nat.eqb_spec 0 next) as [E|E]; [lia|].
+      split; [exact Hn|]. split; [lia|]. reflexivity.
+    + destruct (Nat.eqb_spec (S next) next) as [E|E]; [lia|].
+      split; [exact Hn|]. split; [lia|]. reflexivity.
+Qed.
+
+Lemma length_replace_nth {X} (l : list X) i x : length (replace_nth l i x) = length l.
+Proof. revert i. induction l as [|h t IH]; intros [|i]; cbn; try reflexivity. rewrite IH. reflexivity. Qed.
+
+(* the monitor run over the callbacks of one poll *)
+Definition acalls (n : nat) (tsa : Z) (m : cst) (l : list call) : Prop :=
+  accepts (cpre n tsa) (cpost n) m (map HCall l).
+Definition mcalls (n : nat) (m : cst) (l : list call) : cst := posts (cpost n) m (map HCall l).
+
+Lemma mcalls_kind n l : forall m, c_kind (mcalls n m l) = c_kind m.
+Proof.
+  induction l as [|c l IH]; intros m; [reflexivity|].
+  change (mcalls n m (c :: l)) with (mcalls n (cpost n m (HCall c)) l). rewrite IH.
+  destruct c as [i hp [[wire [da|]]|]|i a t|i a]; reflexivity.
+Qed.
+
+Lemma acalls_app n tsa m l1 l2 : acalls n tsa m (l1 ++ l2) <-> acalls n tsa m l1 /\ acalls n tsa (mcalls n m l1) l2.
+Proof. unfold acalls, mcalls. rewrite map_app. apply accepts_app. Qed.
+Lemma mcalls_app n m l1 l2 : mcalls n m (l1 ++ l2) = mcalls n (mcalls n m l1) l2.
+Proof. unfold mcalls. rewrite map_app. apply posts_app. Qed.
+
+(* the state-dependent part of the invariant *)
+Definition inv_st (n : nat) (f : fdl) (m : cst) : Prop :=
+  match f_state f with
+  | UseToken _ fa _ => c_out m = None /\ visit_inv n fa (f_next_app f) (c_decl m)
+  | AwaitDataResponse a _ fa => c_out m = Some (f_next_app f, a) /\ visit_inv n fa (f_next_app f) (c_decl m)
+  | Offline => c_out m = None /\ f_next_app f = 0%nat
+  | _ => c_out m = None
+  end.
+
+(* The invariant between two events: the monitor knows the state kind, whose turn it is, the outstanding
+   request, and how many applications have declined in this visit. *)
+Definition Inv (n : nat) (f : fdl) (m : cst) : Prop :=
+  c_kind m = kind_of (f_state f) /\ c_turn m = f_next_app f /\ inv_st n f m.
 
 (* ------------------------------------------------------------------------------------------ *)
 
@@ -741,5 +829,437 @@ Proof.
     eapply squiet_trans; [exact Hq|].
     split; [destruct fi; unfold keepw; cbn; tauto|]. split; [apply keepf_sync_pending|apply qstate_refl].
 Qed.
+
+(* ------------------------------------------------------------------------------------------ *)
+(* Part B: the functions that call applications                                                *)
+
+(* hold-time fields and parameters (next_application may move) *)
+Definition keeph (f f' : fdl) : Prop :=
+  f_p f' = f_p f /\ f_last_token_time f' = f_last_token_time f /\ f_end_tht f' = f_end_tht f.
+Lemma keeph_refl f : keeph f f. Proof. unfold keeph. tauto. Qed.
+Lemma keeph_trans f g h : keeph f g -> keeph g h -> keeph f h.
+Proof. unfold keeph. intuition congruence. Qed.
+Lemma keepf_keeph f f' : keepf f f' -> keeph f f'.
+Proof. unfold keepf, keeph. tauto. Qed.
+
+Lemma app_transmit_spec f now (w : W) idx app hp f' w' d :
+  app_transmit_telegram A ops f now w idx app hp = Ok (f', w', d) ->
+  exists app' r, a_tx ops app now (f_p f) hp = Ok (app', r) /\
+    w_calls w' = w_calls w ++ [CallTransmit idx hp r] /\
+    w_apps w' = replace_nth (w_apps w) idx app' /\ keepf f f' /\
+    match r with
+    | None => d = false /\ f_state f' = f_state f
+    | Some (_, None) => d = true /\ f_state f' = f_state f
+    | Some (_, Some da) => d = true /\ exists tk fa fcd, f_state f = UseToken tk fa fcd /\ f_state f' = AwaitDataResponse da tk fa
+    end.
+Proof.
+  unfold app_transmit_telegram. intros H.
+  destruct (a_tx ops app now (f_p f) hp) as [[app' r]| |] eqn:Ea; cbn [bind] in H; try discriminate H.
+  exists app', r. split; [reflexivity|].
+  destruct r as [[wire exp]|].
+  - unfold phy_transmit in H. cbn [log_call set_app w_tx] in H.
+    destruct (w_tx w); cbn [bind] in H; [discriminate H|].
+    destruct exp as [addr|].
+    + destruct (f_state f) as [ | | | |tk fa fcd| | | | | ] eqn:Es; cbn [get_use_token bind] in H; try discriminate H.
+      match type of H with context [trans A ?a ?b ?c] => destruct (trans A a b c) as [[f1 w1]| |] eqn:Et end; cbn [bind] in H; try discriminate H.
+      apply trans_keep in Et. destruct Et as [s' [Ht [_ [Hk [[Hw1 Hw2] Hs]]]]].
+      unfold transition_await_data_response in Ht. destruct (assert_kind _ _); cbn [bind] in Ht; try discriminate Ht. injection Ht as <-.
+      destruct (mark_tx f1 now _) as [f2| |] eqn:Em; cbn [bind] in H; try discriminate H.
+      injection H as <- <- <-. apply mark_tx_same in Em.
+      split; [rewrite Hw1; reflexivity|]. split; [rewrite Hw2; reflexivity|].
+      split; [eapply keepf_trans; [exact Hk|apply keepf_same; exact Em]|]. split; [reflexivity|].
+      exists tk, fa, fcd. split; [reflexivity|]. destruct Em as [_ [_ [_ [_ [Hs2 _]]]]]. rewrite Hs2. exact Hs.
+    + cbn [bind] in H. destruct (mark_tx f now _) as [f2| |] eqn:Em; cbn [bind] in H; try discriminate H.
+      injection H as <- <- <-. apply mark_tx_same in Em.
+      split; [reflexivity|]. split; [reflexivity|]. split; [apply keepf_same; exact Em|]. split; [reflexivity|apply Em].
+  - injection H as <- <- <-. split; [reflexivity|]. split; [reflexivity|]. split; [apply keepf_refl|]. split; reflexivity.
+Qed.
+
+Lemma schedule_next_spec f n f' c : schedule_next_application f n = Ok (f', c) ->
+  exists tk fa fcd, f_state f = UseToken tk fa fcd /\ n <> 0%nat /\
+    let first := match fa with Some x => x | None => f_next_app f end in
+    let next := Nat.modulo (f_next_app f + 1) n in
+    f_state f' = UseToken tk (Some first) fcd /\ f_next_app f' = next /\ c = Nat.eqb next first /\ keeph f f'.
+Proof.
+  unfold schedule_next_application.
+  destruct (f_state f) as [ | | | |tk fa fcd| | | | | ]; cbn [get_use_token bind]; try discriminate.
+  destruct (Nat.eqb_spec n 0) as [E|E]; [discriminate|]. intros H. injection H as <- <-.
+  exists tk, fa, fcd. split; [reflexivity|]. split; [exact E|]. cbn. unfold keeph. cbn. tauto.
+Qed.
+
+(* do_await_data_response, case by case *)
+Lemma do_await_data_response_split f now (w : W) f' w' :
+  do_await_data_response A ops f now w = Ok (f', w') ->
+  exists a tk fa app, f_state f = AwaitDataResponse a tk fa /\ nth_error (w_apps w) (f_next_app f) = Some app /\
+  ( (* a valid reply is delivered *)
+    (exists t app', reply_ok (ts f) a t /\ a_rx ops app now (f_p f) a t = Ok app' /\
+       w_calls w' = w_calls w ++ [CallReceiveReply (f_next_app f) a t] /\
+       w_apps w' = replace_nth (w_apps w) (f_next_app f) app' /\ keepf f f' /\ f_state f' = UseToken tk fa true)
+  \/ (* something else arrived: the token is given up, no callback *)
+    (keepw w w' /\ keepf f f' /\ f_state f' = ActiveIdle None None 0)
+  \/ (* still waiting *)
+    (keepw w w' /\ keepf f f' /\ f_state f' = f_state f)
+  \/ (* slot time expired: time-out callback, then do_use_token in the same poll *)
+    (exists app' f3 w3, a_to ops app now (f_p f) a = Ok app' /\
+       w_calls w3 = w_calls w ++ [CallHandleTimeout (f_next_app f) a] /\
+       w_apps w3 = replace_nth (w_apps w) (f_next_app f) app' /\ keepf f f3 /\ f_state f3 = UseToken tk fa true /\
+       do_use_token A ops f3 now w3 = Ok (f', w')) ).
+Proof.
+  unfold do_await_data_response. intros H.
+  destruct (assert_entry DoAwaitDataResponse f) as [[]| |]; cbn [bind] in H; try discriminate H.
+  destruct (f_state f) as [ | | | | | |a tk fa| | | ] eqn:Es; cbn [get_await_data_response bind] in H; try discriminate H.
+  destruct (nth_error (w_apps w) (f_next_app f)) as [app|] eqn:En; [|discriminate H].
+  exists a, tk, fa, app. split; [reflexivity|]. split; [reflexivity|].
+  destruct (receive_telegram (fun t => t) (w_rx w)) as [[rest received]| |]; cbn [bind] in H; try discriminate H.
+  destruct received as [t|].
+  - pose proof (keepf_mark_rx f now) as Hm. pose proof (state_mark_rx f now) as Hsm.
+    destruct (is_valid_response (mark_rx f now) a t) eqn:Ev.
+    + left. apply is_valid_response_spec in Ev.
+      replace (ts (mark_rx f now)) with (ts f) in Ev by (unfold ts; destruct Hm as [-> _]; reflexivity).
+      replace (f_p (mark_rx f now)) with (f_p f) in H by (destruct Hm as [-> _]; reflexivity).
+      destruct (a_rx ops app now (f_p f) a t) as [app'| |] eqn:Ea; cbn [bind] in H; try discriminate H.
+      match type of H with context [trans A ?a ?b ?c] => destruct (trans A a b c) as [[f1 w1]| |] eqn:Et end; cbn [bind] in H; try discriminate H.
+      apply trans_keep in Et. destruct Et as [s' [Ht [_ [Hk [[Hw1 Hw2] Hs]]]]].
+      unfold transition_use_token in Ht. destruct (assert_kind _ _); cbn [bind] in Ht; try discriminate Ht. injection Ht as <-.
+      unfold set_first_cycle_done in H. rewrite Hs in H. cbn [get_use_token bind] in H. injection H as <- <-.
+      exists t, app'. split; [exact Ev|]. split; [first [exact Ea|reflexivity]|]. split; [rewrite Hw1; reflexivity|]. split; [rewrite Hw2; reflexivity|].
+      split; [|reflexivity]. eapply keepf_trans; [exact Hm|]. eapply keepf_trans; [apply keepf_sync_pending|]. eapply keepf_trans; [exact Hk|apply keepf_set_st].
+    + right. left. apply trans_keep in H. destruct H as [s' [Ht [_ [Hk [Hw Hs]]]]].
+      unfold transition_active_idle in Ht. destruct (assert_kind _ _); cbn [bind] in Ht; try discriminate Ht. injection Ht as <-.
+      split; [eapply keepw_trans; [|exact Hw]; unfold keepw; cbn; tauto|]. split; [eapply keepf_trans; eassumption|exact Hs].
+  - set (wx := if Nat.ltb (length rest) (length (w_rx w)) then note A w TReplyRxDiscard else w) in *.
+    assert (Hwx : w_calls wx = w_calls w /\ w_apps wx = w_apps w) by (unfold wx; destruct (Nat.ltb _ _); split; reflexivity).
+    destruct Hwx as [Hwx1 Hwx2]. clearbody wx.
+destruct (check_slot_expired _ now) as [[f1 expired]| |] eqn:Ec; cbn [bind] in H; try discriminate H.
+    apply check_slot_expired_same in Ec.
+    assert (Hk1 : keepf f f1) by (eapply keepf_trans; [apply keepf_sync_pending|apply keepf_same; exact Ec]).
+    assert (Hs1 : f_state f1 = f_state f) by (destruct Ec as [_ [_ [_ [_ [Hs _]]]]]; rewrite Hs; reflexivity).
+    destruct expired.
+    + right. right. right.
+      replace (f_p f1) with (f_p f) in H by (destruct Hk1 as [-> _]; reflexivity).
+      destruct (a_to ops app now (f_p f) a) as [app'| |] eqn:Ea; cbn [bind] in H; try discriminate H.
+      match type of H with context [trans A ?a ?b ?c] => destruct (trans A a b c) as [[f2 w2]| |] eqn:Et end; cbn [bind] in H; try discriminate H.
+      apply trans_keep in Et. destruct Et as [s' [Ht [_ [Hk [[Hw1 Hw2] Hs]]]]].
+      unfold transition_use_token in Ht. destruct (assert_kind _ _); cbn [bind] in Ht; try discriminate Ht. injection Ht as <-.
+      unfold set_first_cycle_done in H. rewrite Hs in H. cbn [get_use_token bind] in H.
+      exists app', (set_st f2 (UseToken tk fa true)), w2. split; [first [exact Ea|reflexivity]|].
+      split; [rewrite Hw1; cbn; rewrite Hwx1; reflexivity|]. split; [rewrite Hw2; cbn; rewrite Hwx2; reflexivity|].
+      split; [eapply keepf_trans; [exact Hk1|]; eapply keepf_trans; [exact Hk|apply keepf_set_st]|]. split; [reflexivity|exact H].
+    + right. right. left. injection H as <- <-.
+      split; [unfold keepw; cbn; tauto|]. split; [exact Hk1|rewrite Hs1; exact Es].
+Qed.
+
+Section Mon.
+Variable n : nat.       (* number of applications *)
+Variable tsa : Z.       (* address of this station *)
+
+Lemma visit_inv_decl_lt fa next d : (next < n)%nat -> visit_inv n fa next d -> (d < n)%nat.
+Proof. intros Hn. destruct fa as [first|]; cbn; [intros [_ [H _]]; lia|intros ->; lia]. Qed.
+
+Lemma apps_transmit_loop_mon : forall k f now (w : W) hp f' w' d m,
+  apps_transmit_loop A ops k f now w hp = Ok (f', w', d) ->
+  length (w_apps w) = n -> in_visit (c_kind m) = true ->
+  (exists tk fa fcd, f_state f = UseToken tk fa fcd) -> c_turn m = f_next_app f -> inv_st n f m ->
+  exists l, w_calls w' = w_calls w ++ l /\ acalls n tsa m l /\ Forall (is_transmit_call hp) l /\
+    length (w_apps w') = n /\ keeph f f' /\
+    let m' := mcalls n m l in
+    c_turn m' = f_next_app f' /\
+    if d then inv_st n f' m' /\ in_visit (kind_of (f_state f')) = true
+    else c_out m' = None /\ (exists tk fa fcd, f_state f' = UseToken tk fa fcd) /\
+         (c_decl m' = n \/ (inv_st n f' m' /\ c_decl m' = (c_decl m + k)%nat)).
+Proof.
+  induction k as [|k IH]; intros f now w hp f' w' d m H Hlen Hvis Hst Hturn Hinv; cbn [apps_transmit_loop] in H.
+  - injection H as <- <- <-. exists []. rewrite app_nil_r. split; [reflexivity|]. split; [exact I|]. split; [constructor|].
+    split; [exact Hlen|]. split; [apply keeph_refl|]. cbn. split; [exact Hturn|].
+    destruct Hst as [tk [fa [fcd Es]]]. split; [unfold inv_st in Hinv; rewrite Es in Hinv; apply Hinv|].
+    split; [exists tk, fa, fcd; exact Es|]. right. split; [exact Hinv|lia].
+  - destruct (nth_error (w_apps w) (f_next_app f)) as [app|] eqn:En; [|discriminate H].
+    assert (Hidx : (f_next_app f < n)%nat) by (rewrite <- Hlen; apply nth_error_Some; rewrite En; discriminate).
+    destruct (app_transmit_telegram A ops f now w (f_next_app f) app hp) as [[[f1 w1] d1]| |] eqn:Ea; cbn [bind] in H; try discriminate H.
+    apply app_transmit_spec in Ea. destruct Ea as [app' [r [_ [Hc1 [Ha1 [Hk1 Hr]]]]]].
+    assert (Hlen1 : length (w_apps w1) = n) by (rewrite Ha1, length_replace_nth; exact Hlen).
+    destruct Hst as [tk [fa [fcd Es]]].
+    assert (Hinv' := Hinv). unfold inv_st in Hinv'. rewrite Es in Hinv'. destruct Hinv' as [Hout Hv].
+    assert (Hpre : cpre n tsa m (HCall (CallTransmit (f_next_app f) hp r))).
+    { cbn. split; [exact Hvis|]. split; [exact Hout|]. split; [symmetry; exact Hturn|]. split; [exact Hidx|].
+      eapply visit_inv_decl_lt; eassumption. }
+    assert (Hone : Forall (is_transmit_call hp) [CallTransmit (f_next_app f) hp r])
+      by (constructor; [eexists; eexists; reflexivity|constructor]).
+    destruct Hk1 as [Kp [Kn [Kl Ke]]].
+    destruct r as [[wire [da|]]|].
+    + (* sent, reply expected *)
+      destruct Hr as [-> [tk' [fa' [fcd' [Es' Es1]]]]]. rewrite Es in Es'. injection Es' as <- <- <-.
+      injection H as <- <- <-. exists [CallTransmit (f_next_app f) hp (Some (wire, Some da))].
+      split; [exact Hc1|]. split; [split; [exact Hpre|exact I]|]. split; [exact Hone|]. split; [exact Hlen1|].
+      split; [unfold keeph; tauto|]. cbn. split; [rewrite Kn; exact Hturn|].
+      split; [|rewrite Es1; reflexivity]. unfold inv_st. rewrite Es1, Kn. cbn. split; [reflexivity|exact Hv].
+    + (* sent, no reply expected *)
+      destruct Hr as [-> Es1]. injection H as <- <- <-. exists [CallTransmit (f_next_app f) hp (Some (wire, None))].
+      split; [exact Hc1|]. split; [split; [exact Hpre|exact I]|]. split; [exact Hone|]. split; [exact Hlen1|].
+      split; [unfold keeph; tauto|]. cbn. split; [rewrite Kn; exact Hturn|].
+      split; [|rewrite Es1, Es; reflexivity]. unfold inv_st. rewrite Es1, Es, Kn. split; [exact Hout|exact Hv].
+    + (* declined *)
+      destruct Hr as [-> Es1]. rewrite Hlen1 in H.
+      destruct (schedule_next_application f1 n) as [[f2 completed]| |] eqn:Esch; cbn [bind] in H; try discriminate H.
+      apply schedule_next_spec in Esch. destruct Esch as [tk2 [fa2 [fcd2 [Es2 [Hn0 Hsch]]]]]. cbn zeta in Hsch.
+      rewrite Es1, Es in Es2. injection Es2 as <- <- <-. rewrite Kn in Hsch.
+      destruct Hsch as [Est2 [Hnext2 [Hcomp Kh2]]].
+      pose proof (decline_step n fa (f_next_app f) (c_decl m) Hidx Hv) as Hstep. cbn zeta in Hstep.
+      set (m1 := cpost n m (HCall (CallTransmit (f_next_app f) hp None))) in *.
+      assert (Hm1 : c_kind m1 = c_kind m /\ c_out m1 = c_out m /\ c_turn m1 = Nat.modulo (f_next_app f + 1) n /\ c_decl m1 = S (c_decl m))
+        by (unfold m1; cbn; tauto).
+      destruct Hm1 as [M1 [M2 [M3 M4]]].
+      assert (Kh : keeph f f2) by (eapply keeph_trans; [|exact Kh2]; unfold keeph; tauto).
+      rewrite <- Hcomp in Hstep.
+      destruct completed.
+      * injection H as <- <- <-. exists [CallTransmit (f_next_app f) hp None].
+        split; [exact Hc1|]. split; [split; [exact Hpre|exact I]|]. split; [exact Hone|]. split; [exact Hlen1|].
+        split; [exact Kh|]. change (mcalls n m [CallTransmit (f_next_app f) hp None]) with m1. cbn zeta.
+        split; [rewrite M3, Hnext2; reflexivity|]. split; [rewrite M2; exact Hout|].
+        split; [eexists; eexists; eexists; exact Est2|]. left. rewrite M4. exact Hstep.
+      * assert (Hinv2 : inv_st n f2 m1) by (unfold inv_st; rewrite Est2, Hnext2, M2, M4; split; [exact Hout|exact Hstep]).
+        specialize (IH f2 now w1 hp f' w' d m1 H Hlen1 ltac:(rewrite M1; exact Hvis)
+                       ltac:(eexists; eexists; eexists; exact Est2) ltac:(rewrite M3, Hnext2; reflexivity) Hinv2).
+        destruct IH as [l [Hl [Hacc [Hfa [Hlen' [Kh' Hrest]]]]]].
+        exists (CallTransmit (f_next_app f) hp None :: l).
+        split; [rewrite Hl, Hc1, <- app_assoc; reflexivity|]. split; [split; [exact Hpre|exact Hacc]|].
+        split; [constructor; [eexists; eexists; reflexivity|exact Hfa]|]. split; [exact Hlen'|].
+        split; [eapply keeph_trans; eassumption|].
+        change (mcalls n m (CallTransmit (f_next_app f) hp None :: l)) with (mcalls n m1 l).
+        cbn zeta in *. destruct Hrest as [R1 R2]. split; [exact R1|].
+        destruct d; [exact R2|]. destruct R2 as [R2 [R3 R4]]. split; [exact R2|]. split; [exact R3|].
+        destruct R4 as [R4|[R4 R5]]; [left; exact R4|right]. split; [exact R4|]. rewrite R5, M4. lia.
+Qed.
+
+(* do_use_token: the monitor accepts the calls; afterwards the station is still in the visit, or it has
+   decided to pass the token - because every application has declined, or because the hold time is over *)
+Lemma do_use_token_mon f now (w : W) f' w' m :
+  do_use_token A ops f now w = Ok (f', w') ->
+  length (w_apps w) = n -> in_visit (c_kind m) = true -> c_turn m = f_next_app f -> inv_st n f m ->
+  exists l, w_calls w' = w_calls w ++ l /\ acalls n tsa m l /\ length (w_apps w') = n /\ f_p f' = f_p f /\
+    let m' := mcalls n m l in
+    c_turn m' = f_next_app f' /\ inv_st n f' m' /\
+    (in_visit (kind_of (f_state f')) = true \/
+     (f_state f' = PassToken true first_attempt /\ (c_decl m' = n \/ f_end_tht f' <= now))).
+Proof.
+  unfold do_use_token, assert_entry. intros H Hlen Hvis Hturn Hinv.
+  destruct (f_state f) as [ | | | |tk fa fcd| | | | | ] eqn:Es; cbn [kind_of do_fn_entry state_kind_eqb bind get_use_token] in H; try discriminate H.
+  match type of H with bind ?x _ = _ => destruct x as [[f1 w1]| |] eqn:E1 end; cbn [bind] in H; try discriminate H.
+  assert (H1 : keepw w w1 /\ f_state f1 = f_state f /\ f_next_app f1 = f_next_app f /\ f_p f1 = f_p f).
+  { destruct (negb _).
+    - destruct (inst_add _ _) as [e| |]; cbn [bind] in E1; try discriminate E1.
+      destruct (f_gap f).
+      + injection E1 as <- <-. split; [apply keepw_note|]. cbn. tauto.
+      + destruct (inst_sub_dur _ _) as [e2| |]; cbn [bind] in E1; try discriminate E1.
+        injection E1 as <- <-. split; [apply keepw_note|]. cbn. tauto.
+    - injection E1 as <- <-. split; [apply keepw_refl|]. tauto. }
+  destruct H1 as [[Hc1 Ha1] [Hs1 [Hn1 Hp1]]].
+  destruct (wait_synchronization_pause f1 now) as [[f2 wait]| |] eqn:Ew; cbn [bind] in H; try discriminate H.
+  apply wait_sync_same in Ew. destruct Ew as [[Hp2 [_ [_ [_ [Hs2 [_ [_ [He2 Hn2]]]]]]]] _].
+  assert (Hinv2 : inv_st n f2 m) by (unfold inv_st in *; rewrite Hs2, Hs1, Hn2, Hn1; exact Hinv).
+  assert (Hturn2 : c_turn m = f_next_app f2) by (rewrite Hn2, Hn1; exact Hturn).
+  destruct wait.
+  - injection H as <- <-. exists []. cbn. rewrite app_nil_r. split; [exact Hc1|]. split; [exact I|]. split; [rewrite Ha1; exact Hlen|].
+    split; [congruence|]. split; [exact Hturn2|]. split; [exact Hinv2|]. left. rewrite Hs2, Hs1, Es. reflexivity.
+  - rewrite Hs2, Hs1, Es in H. cbn [get_use_token bind] in H.
+    (* the two rounds are the same up to the priority flag *)
+    assert (Hround : forall hp tg f'' w'' d,
+      (let* f0 := set_first_cycle_done f2 in apps_transmit_telegram A ops f0 now (note A w1 tg) hp) = Ok (f'', w'', d) ->
+      exists l, w_calls w'' = w_calls w ++ l /\ acalls n tsa m l /\ length (w_apps w'') = n /\ keeph f2 f'' /\
+        let m' := mcalls n m l in
+        c_turn m' = f_next_app f'' /\
+        if d then inv_st n f'' m' /\ in_visit (kind_of (f_state f'')) = true
+        else c_out m' = None /\ (exists tk fa fcd, f_state f'' = UseToken tk fa fcd) /\ c_decl m' = n).
+    { intros hp tg f'' w'' d Hr. unfold set_first_cycle_done in Hr. rewrite Hs2, Hs1, Es in Hr. cbn [get_use_token bind] in Hr.
+      unfold apps_transmit_telegram in Hr. cbn [note w_apps] in Hr.
+      eapply apps_transmit_loop_mon with (m := m) in Hr.
+      - destruct Hr as [l [Hl [Hacc [_ [Hlen' [Kh Hrest]]]]]]. exists l. cbn [note w_calls] in Hl.
+        split; [rewrite Hl, Hc1; reflexivity|]. split; [exact Hacc|]. split; [exact Hlen'|].
+        split; [eapply keeph_trans; [|exact Kh]; unfold keeph; cbn; tauto|].
+        cbn zeta in *. destruct Hrest as [R1 R2]. split; [exact R1|]. destruct d; [exact R2|].
+        destruct R2 as [R2 [R3 R4]]. split; [exact R2|]. split; [exact R3|].
+        destruct R4 as [R4|[R4 R5]]; [exact R4|]. cbn [note w_apps] in R5. rewrite Ha1, Hlen in R5.
+        destruct R3 as [tk3 [fa3 [fcd3 Es3]]]. unfold inv_st in R4. rewrite Es3 in R4. destruct R4 as [_ R4].
+        destruct fa3 as [first|]; cbn in R4; lia.
+      - cbn. rewrite Ha1. exact Hlen.
+      - exact Hvis.
+      - eexists; eexists; eexists; reflexivity.
+      - cbn. exact Hturn2.
+      - unfold inv_st in *. cbn. rewrite Hs2, Hs1, Es in Hinv2. exact Hinv2. }
+    assert (Hfinish : forall (f3 : fdl) (w3 : W) (d : bool) (l : list call),
+      (if d then Ok (f3, w3) else trans A f3 w3 (fun s => transition_pass_token s true first_attempt)) = Ok (f', w') ->
+      w_calls w3 = w_calls w ++ l -> acalls n tsa m l -> length (w_apps w3) = n -> keeph f2 f3 ->
+      (let m' := mcalls n m l in
+        c_turn m' = f_next_app f3 /\
+        if d then inv_st n f3 m' /\ in_visit (kind_of (f_state f3)) = true
+        else c_out m' = None /\ (exists tk fa fcd, f_state f3 = UseToken tk fa fcd) /\ (c_decl m' = n \/ f_end_tht f3 <= now)) ->
+      exists l, w_calls w' = w_calls w ++ l /\ acalls n tsa m l /\ length (w_apps w') = n /\ f_p f' = f_p f /\
+        let m' := mcalls n m l in
+        c_turn m' = f_next_app f' /\ inv_st n f' m' /\
+        (in_visit (kind_of (f_state f')) = true \/
+         (f_state f' = PassToken true first_attempt /\ (c_decl m' = n \/ f_end_tht f' <= now)))).
+    { intros f3 w3 d l Hfin Hl Hacc Hlen3 Kh Hrest. cbn zeta in *. exists l. destruct Hrest as [R1 R2].
+      destruct d.
+      - injection Hfin as <- <-. split; [exact Hl|]. split; [exact Hacc|]. split; [exact Hlen3|].
+        split; [destruct Kh as [Kp _]; congruence|]. split; [exact R1|]. split; [apply R2|left; apply R2].
+      - apply trans_keep in Hfin. destruct Hfin as [s' [Ht [_ [Hk [[Hw1 Hw2] Hs]]]]].
+        destruct R2 as [R2 [[tk3 [fa3 [fcd3 Es3]]] R4]].
+        unfold transition_pass_token in Ht. destruct (assert_kind _ _); cbn [bind] in Ht; try discriminate Ht. injection Ht as <-.
+        destruct Hk as [Kp [Kn [Kl Ke]]].
+        split; [rewrite Hw1; exact Hl|]. split; [exact Hacc|]. split; [rewrite Hw2; exact Hlen3|].
+        split; [destruct Kh as [Kp' _]; congruence|]. split; [rewrite Kn; exact R1|].
+        split; [unfold inv_st; rewrite Hs; exact R2|]. right. split; [exact Hs|]. rewrite Ke. exact R4. }
+    destruct (Z.ltb_spec now (f_end_tht f2)) as [Hlt|Hge].
+    + match type of H with bind ?x _ = _ => destruct x as [[[f3 w3] d]| |] eqn:El end; cbn [bind] in H; try discriminate H.
+      apply Hround in El. destruct El as [l [Hl [Hacc [Hlen3 [Kh Hrest]]]]].
+      eapply Hfinish; [exact H|exact Hl|exact Hacc|exact Hlen3|exact Kh|].
+      cbn zeta in *. destruct Hrest as [R1 R2]. split; [exact R1|]. destruct d; [exact R2|].
+      destruct R2 as [R2 [R3 R4]]. split; [exact R2|]. split; [exact R3|left; exact R4].
+    + destruct fcd.
+      * cbn [negb bind] in H.
+        eapply (Hfinish f2 (note A w1 TUseHoldOver) false []); [exact H|cbn; rewrite app_nil_r; exact Hc1|exact I|cbn; rewrite Ha1; exact Hlen|apply keeph_refl|].
+        cbn. split; [exact Hturn2|]. unfold inv_st in Hinv2. rewrite Hs2, Hs1, Es in Hinv2.
+        split; [apply Hinv2|]. split; [exists tk, fa, true; rewrite Hs2, Hs1; exact Es|right; exact Hge].
+      * cbn [negb] in H.
+        match type of H with bind ?x _ = _ => destruct x as [[[f3 w3] d]| |] eqn:El end; cbn [bind] in H; try discriminate H.
+        apply Hround in El. destruct El as [l [Hl [Hacc [Hlen3 [Kh Hrest]]]]].
+        eapply Hfinish; [exact H|exact Hl|exact Hacc|exact Hlen3|exact Kh|].
+        cbn zeta in *. destruct Hrest as [R1 R2]. split; [exact R1|]. destruct d; [exact R2|].
+        destruct R2 as [R2 [R3 R4]]. split; [exact R2|]. split; [exact R3|left; exact R4].
+Qed.
+
+Lemma do_await_data_response_mon f now (w : W) f' w' m :
+  do_await_data_response A ops f now w = Ok (f', w') -> tsa = ts f ->
+  length (w_apps w) = n -> c_kind m = KAwaitDataResponse -> c_turn m = f_next_app f -> inv_st n f m ->
+  exists l, w_calls w' = w_calls w ++ l /\ acalls n tsa m l /\ length (w_apps w') = n /\ f_p f' = f_p f /\
+    let m' := mcalls n m l in
+    ( (c_turn m' = f_next_app f' /\ inv_st n f' m' /\
+       (in_visit (kind_of (f_state f')) = true \/
+        (f_state f' = PassToken true first_attempt /\ (c_decl m' = n \/ f_end_tht f' <= now))))
+    \/ (l = [] /\ kind_of (f_state f') = KActiveIdle /\ f_next_app f' = f_next_app f) ).
+Proof.
+  intros H Hts Hlen Hkind Hturn Hinv.
+  apply do_await_data_response_split in H.
+  destruct H as [a [tk [fa [app [Es [En Hcases]]]]]].
+  assert (Hinv' := Hinv). unfold inv_st in Hinv'. rewrite Es in Hinv'. destruct Hinv' as [Hout Hv].
+  destruct Hcases as [[t [app' [Hok [_ [Hc [Ha [Hk Hs']]]]]]]|[[Hw [Hk Hs']]|[[Hw [Hk Hs']]|[app' [f3 [w3 [_ [Hc3 [Ha3 [Hk3 [Hs3 Hdo]]]]]]]]]]].
+  - exists [CallReceiveReply (f_next_app f) a t]. split; [exact Hc|].
+    split; [split; [|exact I]; cbn; rewrite Hts; split; [exact Hkind|]; split; [exact Hout|]; split; [symmetry; exact Hturn|exact Hok]|].
+    split; [rewrite Ha, length_replace_nth; exact Hlen|]. split; [apply Hk|]. cbn. left.
+    destruct Hk as [_ [Kn _]]. split; [rewrite Kn; exact Hturn|]. split; [|rewrite Hs'; left; reflexivity].
+    unfold inv_st. rewrite Hs', Kn. cbn. split; [reflexivity|exact Hv].
+  - exists []. rewrite app_nil_r. split; [apply Hw|]. split; [exact I|]. split; [destruct Hw as [_ ->]; exact Hlen|]. split; [apply Hk|].
+    cbn. right. split; [reflexivity|]. split; [rewrite Hs'; reflexivity|apply Hk].
+  - exists []. rewrite app_nil_r. split; [apply Hw|]. split; [exact I|]. split; [destruct Hw as [_ ->]; exact Hlen|]. split; [apply Hk|].
+    cbn. left. destruct Hk as [_ [Kn _]]. split; [rewrite Kn; exact Hturn|]. split; [|rewrite Hs', Es; left; reflexivity].
+    unfold inv_st. rewrite Hs', Es, Kn. split; [exact Hout|exact Hv].
+  - set (m1 := cpost n m (HCall (CallHandleTimeout (f_next_app f) a))).
+    destruct Hk3 as [Kp [Kn [Kl Ke]]].
+    eapply do_use_token_mon with (m := m1) in Hdo.
+    + destruct Hdo as [l [Hl [Hacc [Hlen' [Hp' Hrest]]]]].
+      exists (CallHandleTimeout (f_next_app f) a :: l).
+      split; [rewrite Hl, Hc3, <- app_assoc; reflexivity|].
+      split; [split; [cbn; split; [exact Hkind|]; split; [exact Hout|symmetry; exact Hturn]|exact Hacc]|].
+      split; [exact Hlen'|]. split; [congruence|].
+      change (mcalls n m (CallHandleTimeout (f_next_app f) a :: l)) with (mcalls n m1 l). left. exact Hrest.
+    + rewrite Ha3, length_replace_nth. exact Hlen.
+    + unfold m1. cbn. rewrite Hkind. reflexivity.
+    + unfold m1. cbn. rewrite Kn. exact Hturn.
+    + unfold inv_st, m1. rewrite Hs3, Kn. cbn. split; [reflexivity|exact Hv].
+Qed.
+
+(* ------------------------------------------------------------------------------------------ *)
+(* the end of the poll: the monitor accepts the HEnd item and the invariant is re-established   *)
+
+Definition outcome (now : Z) (m : cst) (l : list call) (f' : fdl) : Prop :=
+  let h := map HCall l ++ [HEnd now f'] in
+  accepts (cpre n tsa) (cpost n) m h /\ Inv n f' (posts (cpost n) m h).
+
+Lemma outcome_intro now m l f' :
+  acalls n tsa m l ->
+  cpre n tsa (mcalls n m l) (HEnd now f') ->
+  Inv n f' (cpost n (mcalls n m l) (HEnd now f')) ->
+  outcome now m l f'.
+Proof.
+  intros Ha Hp Hi. unfold outcome. cbn zeta. split.
+  - apply accepts_app. split; [exact Ha|]. cbn. split; [exact Hp|exact I].
+  - rewrite posts_app. exact Hi.
+Qed.
+
+Lemma visit_inv_not_all fa next d : (0 < n)%nat -> visit_inv n fa next d -> d <> n.
+Proof. intros Hn. destruct fa as [first|]; cbn; [intros [_ [H _]]; lia|intros ->; lia]. Qed.
+
+(* a poll inside a visit *)
+Lemma outcome_visit now m l f' :
+  in_visit (c_kind m) = true -> acalls n tsa m l ->
+  c_turn (mcalls n m l) = f_next_app f' -> inv_st n f' (mcalls n m l) ->
+  (in_visit (kind_of (f_state f')) = true \/
+   (f_state f' = PassToken true first_attempt /\ (c_decl (mcalls n m l) = n \/ f_end_tht f' <= now))) ->
+  outcome now m l f'.
+Proof.
+  intros Hvis Hacc Hturn Hinv Hd. apply outcome_intro; [exact Hacc| |].
+  - pose proof (mcalls_kind n l m) as Hk. set (m' := mcalls n m l) in *. cbn. rewrite Hk, Hvis.
+    unfold inv_st in Hinv. destruct Hd as [Hv|[Hs Hd]].
+    + destruct (f_state f') as [ | | | |tk fa fcd| |a tk fa| | | ] eqn:Es; try discriminate Hv; cbn.
+      * destruct Hinv as [Ho Hvi]. split; [discriminate|]. split; [intros C; contradiction|].
+        split; [intros _ Hn Hdn; exfalso; exact (visit_inv_not_all _ _ _ Hn Hvi Hdn)|discriminate].
+      * destruct Hinv as [Ho Hvi]. split; [intros _; rewrite Ho; discriminate|]. split; [intros _; left; reflexivity|].
+        split; [intros _ Hn Hdn; exfalso; exact (visit_inv_not_all _ _ _ Hn Hvi Hdn)|discriminate].
+    + rewrite Hs in *. cbn. split; [discriminate|]. split; [intros C; contradiction|]. split; [reflexivity|]. intros _ _. exact Hd.
+  - pose proof (mcalls_kind n l m) as Hk. set (m' := mcalls n m l) in *.
+    unfold Inv, inv_st in *. cbn. destruct Hd as [Hv|[Hs Hd]].
+    + destruct (f_state f') as [ | | | |tk fa fcd| |a tk fa| | | ] eqn:Es; try discriminate Hv; cbn.
+      * rewrite Hk, Hvis. split; [reflexivity|]. split; [exact Hturn|]. split; [reflexivity|apply Hinv].
+      * rewrite Hk, Hvis. split; [reflexivity|]. split; [exact Hturn|]. exact Hinv.
+    + rewrite Hs. cbn. split; [reflexivity|]. split; [exact Hturn|reflexivity].
+Qed.
+
+(* a poll outside a visit that calls no application; the station may have been re-created *)
+Lemma outcome_quiet now m f' :
+  in_visit (c_kind m) = false -> c_out m = None ->
+  (f_state f' = Offline -> f_next_app f' = 0%nat) -> (f_state f' <> Offline -> c_turn m = f_next_app f') ->
+  match f_state f' with AwaitDataResponse _ _ _ => False | UseToken _ fa _ => fa = None | _ => True end ->
+  outcome now m [] f'.
+Proof.
+  intros Hvis Hout Hoff Hturn Hst. apply outcome_intro; [exact I| |]; change (mcalls n m []) with m.
+  - cbn. rewrite Hvis, Hout. split; [|split; [intros C; contradiction C; reflexivity|split; discriminate]].
+    intros Hk. destruct (f_state f'); try discriminate Hk. contradiction.
+  - unfold Inv, inv_st. cbn. rewrite Hvis.
+    destruct (f_state f') eqn:Es; cbn; try contradiction;
+      try (split; [reflexivity|]; split; [apply Hturn; discriminate|reflexivity]).
+    + split; [reflexivity|]. rewrite (Hoff eq_refl). repeat split; reflexivity.
+    + subst first_app. split; [reflexivity|]. split; [apply Hturn; discriminate|]. split; reflexivity.
+Qed.
+
+(* a poll that changes nothing the applications can see *)
+Lemma outcome_same now m f f' :
+  Inv n f m -> f_state f' = f_state f -> f_next_app f' = f_next_app f -> outcome now m [] f'.
+Proof.
+  intros [Hk [Hturn Hinv]] Hs Hn.
+  assert (Hinv' : inv_st n f' m) by (unfold inv_st in *; rewrite Hs, Hn; exact Hinv).
+  destruct (in_visit (c_kind m)) eqn:Hvis.
+  - apply outcome_visit; [exact Hvis|exact I|cbn; rewrite Hn; exact Hturn|exact Hinv'|].
+    left. rewrite Hs, <- Hk. exact Hvis.
+  - rewrite Hk in Hvis. unfold inv_st in Hinv'. rewrite Hs in Hinv'.
+    apply outcome_quiet; [rewrite Hk; exact Hvis| | |intros _; rewrite Hn; exact Hturn|];
+      rewrite ?Hs; destruct (f_state f); try discriminate Hvis; try tauto; try discriminate.
+Qed.
+
+(* the station gives up an outstanding request because it lost the token *)
+Lemma outcome_abandon now m f f' :
+  Inv n f m -> kind_of (f_state f) = KAwaitDataResponse -> kind_of (f_state f') = KActiveIdle ->
+  f_next_app f' = f_next_app f -> outcome now m [] f'.
+Proof.
+  intros [Hk [Hturn Hinv]] Hs Hs' Hn. apply outcome_intro; [exact I| |]; change (mcalls n m []) with m.
+  - cbn. rewrite Hs', Hk, Hs. cbn. unfold inv_st in Hinv.
+    destruct (f_state f) as [ | | | | | |a tk fa| | | ]; try discriminate Hs. destruct Hinv as [Ho Hvi].
+    split; [discriminate|]. split; [intros _; right; reflexivity|].
+    split; [intros _ Hp Hd; exfalso; exact (visit_inv_not_all _ _ _ Hp Hvi Hd)|discriminate].
+  - unfold Inv, inv_st. cbn. rewrite Hs'.
+    destruct (f_state f') as [ | | |sr nps cc| | | | | | ]; try discriminate Hs'. cbn.
+    split; [reflexivity|]. split; [rewrite Hn; exact Hturn|reflexivity].
+Qed.
+
+End Mon.
 
 End Apps.
